@@ -97,6 +97,8 @@ class Monitor:
     def after(self, action: str, note: Note | None, expect_unchanged: str | None):
         ctx, cm = self.ctx, self.cm
         self.steps.append([action, note.kind if note else None, note.version if note else None])
+        ctx.case(('delivery', action, note.kind if note else None, expect_unchanged, self.frozen,
+                  tuple(s[0] for s in self.steps[-3:])))
         cur = snap(cm)
         ctx.count('monitor.evaluations')
         changed = snap_equal(self.prev, cur)
